@@ -126,6 +126,13 @@ class MatchS(Sort):
         self.name = f'Match[{pattern_expr}]'
 
 
+class Fn(Sort):
+    """an opaque callable parameter: applying it is an uninterpreted function of its arguments (assumed pure)"""
+    def __init__(self, args, ret, name=None):
+        self.args, self.ret, self.fname = list(args), ret, name
+        self.name = f'Fn[{name}]'
+
+
 class TupleS(Sort):
     def __init__(self, *elems):
         self.elems = elems
@@ -146,7 +153,7 @@ class Contract:
                  loops=None, modifies=(), ghosts=None, inline=False, trusted=False,
                  covers=(), native=None, result=None, note='', exact_raises=True,
                  dropped=(), opaque=None, floor=1, name=None, pure_result=False,
-                 assumes=(), variant='', uses=(), abstract_classes=None, reveal=(), cases=None, yields=None, then_call=None, pure_expr=None, shards=1, returns=None, opaque_attrs=None):
+                 assumes=(), variant='', uses=(), abstract_classes=None, reveal=(), cases=None, yields=None, then_call=None, pure_expr=None, shards=1, returns=None, opaque_attrs=None, opaque_fns=None):
         self.prop = prop
         self.file = file
         self.qual = qual
@@ -173,6 +180,7 @@ class Contract:
         self.uses = list(uses)              # instances of proved lemmas: (lemma name, {var: text})
         self.abstract_classes = abstract_classes or {}
         self.opaque_attrs = opaque_attrs or {}    # attributes of opaque objects: name -> Sort (uninterpreted functions of the object)
+        self.opaque_fns = opaque_fns or {}      # global functions treated as uninterpreted here: name -> ([arg sorts], ret sort)
         self.returns = returns              # name of the parameter object the function returns (aliasing: `return self`)
         self.shards = shards                # discharge the obligations of this function in that many parallel workers
         self.yields = yields                # element sort of the ghost sequence of yielded values (generators)
